@@ -202,6 +202,19 @@ func (b *Builder) Stmt(n *Node) *jen.Statement {
 
 func (b *Builder) applyAll(s *jen.Statement, calls []Call, from int) {
 	for i := from; i < len(calls); i++ {
+		if b.Forms != nil && i > from && len(calls)-i >= 1 && b.Forms.Choose(12) == 1 {
+			// the rest of the chain is applied inside a Do callback: Do hands the statement itself to the
+			// callback, so s.A().Do(func(s){ s.B().C() }) is s.A().B().C()
+			b.NonBaseline++
+			cb := b.newCallback("Do")
+			rest := i
+			s.Do(func(s2 *jen.Statement) {
+				cb.hit()
+				b.applyAll(s2, calls, rest)
+			})
+			cb.Returned = true
+			return
+		}
 		var prev, next *Call
 		if i > 0 {
 			prev = &calls[i-1]
